@@ -86,17 +86,13 @@ fn k03_split_ascii_len3() {
     std::mem::forget(os);
 }
 
-/// `-c=v` / `--c=v` where c is a fixed two-byte character (ñ) and v one free byte (any value, also non UTF-8)
+/// `-c=v` where c is a fixed two-byte character (ñ) and v one free byte (any value, also non UTF-8)
 #[kani::proof]
 #[kani::unwind(8)]
-fn k03_split_nonascii_name_eq_value() {
-    let long: bool = kani::any();
+fn k03_split_nonascii_short_eq_value() {
     let v: u8 = kani::any();
-    let mut b = Vec::with_capacity(6);
+    let mut b = Vec::with_capacity(5);
     b.push(b'-');
-    if long {
-        b.push(b'-');
-    }
     b.push(0xC3);
     b.push(0xB1);
     b.push(b'=');
@@ -105,14 +101,41 @@ fn k03_split_nonascii_name_eq_value() {
     let r = split_os_argument(&os);
     assert!(r.is_some());
     let (ty, name, val) = r.unwrap();
-    assert!((ty == ArgType::Long) == long);
+    assert!(ty == ArgType::Short);
     let nb = name.as_bytes();
     assert!(nb.len() == 2 && nb[0] == 0xC3 && nb[1] == 0xB1);
     let vb = arg_bytes(&val);
     assert!(vb.is_some());
     let vb = vb.unwrap();
     assert!(vb.len() == 1 && vb[0] == v);
-    kani::cover!(!long && v >= 128);
+    kani::cover!(v >= 128);
+    std::mem::forget(name);
+    std::mem::forget(val);
+    std::mem::forget(os);
+}
+
+/// `--c=v`, same family for a long name
+#[kani::proof]
+#[kani::unwind(8)]
+fn k03_split_nonascii_long_eq_value() {
+    let v: u8 = kani::any();
+    let mut b = Vec::with_capacity(6);
+    b.push(b'-');
+    b.push(b'-');
+    b.push(0xC3);
+    b.push(0xB1);
+    b.push(b'=');
+    b.push(v);
+    let os = OsString::from_vec(b);
+    let r = split_os_argument(&os);
+    assert!(r.is_some());
+    let (ty, name, val) = r.unwrap();
+    assert!(ty == ArgType::Long);
+    let nb = name.as_bytes();
+    assert!(nb.len() == 2 && nb[0] == 0xC3 && nb[1] == 0xB1);
+    let vb = arg_bytes(&val).unwrap();
+    assert!(vb.len() == 1 && vb[0] == v);
+    kani::cover!(v >= 128);
     std::mem::forget(name);
     std::mem::forget(val);
     std::mem::forget(os);
